@@ -2,7 +2,9 @@
 package nlp
 
 import (
+	"maps"
 	"math"
+	"slices"
 	"sort"
 	"strings"
 	"unicode"
@@ -70,7 +72,10 @@ func (s *TFIDFSearcher) buildIndex() {
 	// Step 2: Build vocabulary index
 	s.vocabulary = make(map[string]int)
 	vocabIndex := 0
-	for word, docCount := range wordCounts {
+	// (maps are walked in sorted key order throughout: floating-point sums and
+	// vocabulary numbering must not depend on Go's random map iteration order)
+	for _, word := range slices.Sorted(maps.Keys(wordCounts)) {
+		docCount := wordCounts[word]
 		// Include unique terms (docCount >= 1) as they are highly discriminating
 		// Upper bound at 80% to exclude only very common terms
 		maxDocs := len(s.commands) * 8 / 10
@@ -107,7 +112,8 @@ func (s *TFIDFSearcher) buildIndex() {
 		s.commandTF[i] = make(map[int]float64)
 		var norm float64
 
-		for termIdx, count := range termCounts {
+		for _, termIdx := range slices.Sorted(maps.Keys(termCounts)) {
+			count := termCounts[termIdx]
 			tf := float64(count) / float64(len(words))
 			tfidf := tf * s.idf[termIdx]
 			s.commandTF[i][termIdx] = tfidf
@@ -164,7 +170,8 @@ func (s *TFIDFSearcher) Search(query string, limit int) []TFIDFResult {
 
 	// Calculate query TF-IDF
 	var queryNorm float64
-	for termIdx, count := range queryTermCounts {
+	for _, termIdx := range slices.Sorted(maps.Keys(queryTermCounts)) {
+		count := queryTermCounts[termIdx]
 		tf := float64(count) / float64(len(queryTokens))
 		tfidf := tf * s.idf[termIdx]
 		queryVector[termIdx] = tfidf
@@ -191,7 +198,7 @@ func (s *TFIDFSearcher) Search(query string, limit int) []TFIDFResult {
 	}
 
 	// Sort by similarity (descending)
-	sort.Slice(results, func(i, j int) bool {
+	sort.SliceStable(results, func(i, j int) bool {
 		return results[i].Similarity > results[j].Similarity
 	})
 
@@ -211,7 +218,8 @@ func (s *TFIDFSearcher) cosineSimilarity(queryVector map[int]float64, queryNorm 
 	}
 
 	var dotProduct float64
-	for termIdx, queryTFIDF := range queryVector {
+	for _, termIdx := range slices.Sorted(maps.Keys(queryVector)) {
+		queryTFIDF := queryVector[termIdx]
 		if docTFIDF, exists := docVector[termIdx]; exists {
 			dotProduct += queryTFIDF * docTFIDF
 		}
